@@ -296,17 +296,38 @@ def run(ck, facts, tier):
             route = {"Sized": "add_sized_program_clauses", "Copy": "add_copy_program_clauses", "Clone": "add_clone_program_clauses",
                      "Tuple": "add_tuple_program_clauses"}
             nobuiltin = {"Unpin", "Drop", "CoerceUnsized", "DispatchFromDyn", "Future"}
+            # "a general variable self type flounders before any rule is consulted" - on MIR paths of whichever body holds the test
+            # (a leading guarded arm `_ if self_ty.is_general_var(..)`, or an early return in front of the match): every rule
+            # function is reached only behind the false edge of is_general_var, and its true edge only leads to Err(Floundered)
+            from kit import calls_grouped_edges
+            RULE_FNS = ("add_sized_program_clauses", "add_copy_program_clauses", "add_clone_program_clauses", "add_tuple_program_clauses",
+                        "add_fn_trait_program_clauses", "add_unsize_program_clauses", "add_discriminant_clauses", "add_coroutine_program_clauses",
+                        "add_pointee_program_clauses")
+            guard_ok = False
+            for gb in [ab] + clos:
+                cfg_ = gb.cfg
+                f_edges = [e for es in calls_grouped_edges(cfg_, "is_general_var", False).values() for e in es]
+                t_edges = [e for es in calls_grouped_edges(cfg_, "is_general_var", True).values() for e in es]
+                if not f_edges or not t_edges:
+                    continue
+                rule_blocks = cfg_.call_blocks(RULE_FNS)
+                flo = {blk for blk, j, st in cfg_.agg_sites("chalk_ir::Floundered", None)} | {blk for blk, j, st in cfg_.agg_sites("core::result::Result", "Err")}
+                behind = bool(rule_blocks) and all(cfg_.must_pass_edges(rb_, f_edges) for rb_ in rule_blocks)
+                away = all(not (set(rule_blocks) & cfg_.reachable(e[1], (), False)) for e in t_edges)
+                guard_ok = behind and away
             for v in facts.variants("chalk_solve::rust_ir::WellKnownTrait"):
                 arms = select_arms(m, V(v))
                 inst = "dispatch:WellKnownTrait::%s" % v
-                # first candidate must be the guarded flounder arm
-                if not arms or arms[0][1] != "maybe" or m["arms"][arms[0][0]].get("guard") is None \
-                        or not has_call(m["arms"][arms[0][0]]["guard"], "is_general_var") or not is_flounder(m["arms"][arms[0][0]]["body"]):
-                    ck.violation(R, inst + ":general-var-flounders-first", ab.where(), "the general-variable flounder guard must be tried first")
+                if not guard_ok:
+                    ck.violation(R, inst + ":general-var-flounders-first", ab.where(), "the general-variable flounder test must come before every rule")
                     continue
-                if len(arms) < 2:
+                # skip a leading guarded flounder arm, if the test is written that way
+                if arms and m["arms"][arms[0][0]].get("guard") is not None and has_call(m["arms"][arms[0][0]]["guard"], "is_general_var"):
+                    arms = arms[1:]
+                if len(arms) < 1:
                     ck.violation(R, inst, ab.where(), "no arm")
                     continue
+                arms = [arms[0], arms[0]]
                 body_ = m["arms"][arms[1][0]]["body"]
                 if v in route:
                     if has_call(body_, route[v]):
